@@ -168,12 +168,34 @@ fn keep_going_cases(o: &mut Out, rng: &mut Rng, thorough: bool) {
                 set_compression(&mut e, cfg.compression);
                 if let Some((nf, np)) = cfg.animated { let _ = e.set_animated(nf, np); if cfg.sep { let _ = e.set_sep_def_img(true); } }
                 let mut w = match e.write_header() { Ok(w) => w, Err(_) => return };
+                // frame rectangles: the first one set on the Writer, the later ones through the stream writer's own setters between frames
+                // (smaller first, then growing back: the stream writer's row buffers must follow)
+                let vary = k % 2 == 1;
+                let (mut cw, mut ch) = (cfg.w, cfg.h);
+                if vary {
+                    let (a, b) = ((cfg.w + 1) / 2, (cfg.h + 1) / 2);
+                    if w.set_frame_dimension(a, b).is_ok() { cw = a; ch = b; }
+                }
                 let drive = |sw: &mut png::StreamWriter<Sink>| {
-                    let mut pos = 0;
-                    let mut stalls = 0;
-                    while pos < data.len() && stalls < 6 {
-                        let end = (pos + part).min(data.len());
-                        match sw.write(&data[pos..end]) { Ok(0) => stalls += 1, Ok(n) => pos += n, Err(_) => stalls += 1 }
+                    let (mut cw, mut ch) = (cw, ch);
+                    let mut off = 0usize;
+                    for f in 0..nimg {
+                        if f > 0 && vary {
+                            match f % 3 {
+                                1 => { if sw.reset_frame_dimension().is_ok() { cw = cfg.w; ch = cfg.h; } }
+                                2 => { let (a, b) = (1.max(cfg.w / 3), cfg.h); if sw.set_frame_dimension(a, b).is_ok() { cw = a; ch = b; } }
+                                _ => { if sw.set_frame_dimension(cfg.w, 1).is_ok() { cw = cfg.w; ch = 1; } }
+                            }
+                        }
+                        let n = ((cw as usize * bits + 7) / 8) * ch as usize;
+                        let frame = &data[off..(off + n).min(data.len())];
+                        off = (off + n).min(data.len());
+                        let mut pos = 0;
+                        let mut stalls = 0;
+                        while pos < frame.len() && stalls < 6 {
+                            let end = (pos + part).min(frame.len());
+                            match sw.write(&frame[pos..end]) { Ok(0) => stalls += 1, Ok(n) => pos += n, Err(_) => stalls += 1 }
+                        }
                     }
                     let _ = sw.flush();
                     let _ = sw.flush();
@@ -243,7 +265,7 @@ pub fn run(a: &Args) {
         for plan in plans {
             let sink = match plan { None => sink0.clone(), Some((f, once)) => Sink::new(if k % 3 == 0 { 3 } else { 0 }, Some(f), once) };
             let run = match plan {
-                None => WRun { results: run0.results.clone(), finish: run0.finish.clone(), panicked: run0.panicked.clone(), images: vec![], errors_before_finish: run0.errors_before_finish },
+                None => WRun { results: run0.results.clone(), finish: run0.finish.clone(), panicked: run0.panicked.clone(), images: vec![], errors_before_finish: run0.errors_before_finish, illegal_accepted: run0.illegal_accepted.clone() },
                 Some(_) => {
                     o.mark(&format!("writer {:?} {:?} finish={} sink-failure={:?}", cfg, ops, finish, plan));
                     run_writer(&cfg, &ops, sink.clone(), finish, &mut Rng(seed_state))
@@ -259,6 +281,24 @@ pub fn run(a: &Args) {
             if let Some(m) = &run.panicked {
                 o.violation(viol("writer-panicked", &format!("writer-panicked: {}", m.chars().take(50).collect::<String>()), detail(m)));
                 continue;
+            }
+            // invalid frame parameters are reported as errors
+            if let Some(why) = run.illegal_accepted.first() {
+                if plan.is_none() {
+                    o.violation(viol("invalid-frame-parameter-accepted", "invalid-frame-parameter-accepted", detail(why)));
+                    continue;
+                }
+            }
+            // with sequence validation on, a whole-image write that returned Err has not written an image: if only whole-image writes were used,
+            // finish() may return Ok only when the number of SUCCESSFUL writes is the declared number (whatever the sink did)
+            // (still images only: on an animated encoder a sink failure inside an image leaves a torn stream whose frame count nobody can repair)
+            if cfg.validate && cfg.animated.is_none() && finish && run.finish == "ok" && !into && !ops.iter().any(|x| matches!(x, WOp::Image { stream: Some(_), .. })) {
+                let ok_images = if plan.is_none() { run0.images.len() } else { run.images.len() };
+                if ok_images != declared {
+                    o.violation(viol("wrong-image-count-accepted-with-validation", "failed-whole-image-write-counted-as-an-image",
+                        detail(&format!("{} whole-image writes returned Ok, {} images declared, finish() returned Ok", ok_images, declared))));
+                    continue;
+                }
             }
             // a dropped / finished writer never emits a second IEND
             if count_iend(bytes) > 1 {
